@@ -35,6 +35,12 @@ def row_selectors(n, tier):
     if n > 0:
         sel.append({"list": [n]})          # out of range in a list
         sel.append({"list": [-n - 1]})
+    if n >= 3:
+        # longer index lists: first and last row in place with the interior permuted / repeated, a full reversal, repeats
+        sel.append({"list": [0] + list(range(n - 2, 0, -1)) + [n - 1]})
+        sel.append({"list": [0] + [-1] * n})
+        sel.append({"list": list(range(n - 1, -1, -1))})
+        sel.append({"list": [1, 0, n - 1]})
     return sel
 
 
